@@ -62,8 +62,12 @@ type File struct {
 	Header bool
 	Items  []Item
 	Trunc  int // > 0: the last Trunc bytes of the file are cut off (inside the last block)
-	Bytes  []byte
-	Starts []int64 // start offset of every file block (header first when present), then len(Bytes)
+	// StartFail > 0: the FIRST file block cannot be read/understood, so decoder.Start fails:
+	// 1 empty input (io.EOF), 2 input cut inside the header block (io.ErrUnexpectedEOF),
+	// 3 unknown first block type, 4 header requires an unsupported feature.
+	StartFail int
+	Bytes     []byte
+	Starts    []int64 // start offset of every file block (header first when present), then len(Bytes)
 }
 
 // NodeID of object j of item b (distinguishable across the file).
@@ -89,6 +93,12 @@ func (f *File) Desc() *pbfgen.FileDesc {
 	d := &pbfgen.FileDesc{}
 	if f.Header {
 		d.Header = &pbfgen.Header{Required: []string{"OsmSchema-V0.6", "DenseNodes"}, HasProgram: true, Program: "verif-pipesup"}
+		switch f.StartFail {
+		case 3:
+			d.Header.Damage = &pbfgen.Damage{BlobType: pbfgen.Str("OSMFoo")}
+		case 4:
+			d.Header.Required = append(d.Header.Required, "VerifUnsupportedFeature")
+		}
 	}
 	for b, it := range f.Items {
 		blk := &pbfgen.Block{Strings: []string{""}}
@@ -163,7 +173,26 @@ func (f *File) Build() {
 	if f.Trunc > 0 {
 		f.Bytes = f.Bytes[:len(f.Bytes)-f.Trunc]
 	}
+	switch f.StartFail {
+	case 1:
+		f.Bytes = nil
+	case 2:
+		f.Bytes = f.Bytes[:pbfgen.BlockEnd(frames, -1)-3]
+	}
 	f.Starts = append(f.Starts, int64(len(f.Bytes)))
+}
+
+// StartErr is the error code Start must fail with (0: it succeeds).
+func (f *File) StartErr() int64 {
+	switch f.StartFail {
+	case 1:
+		return EEOF
+	case 2:
+		return ETrunc
+	case 3, 4:
+		return EOther
+	}
+	return ENone
 }
 
 // Reader is an instrumented in-memory io.Reader.
@@ -174,11 +203,16 @@ type Reader struct {
 	Chunk   func() int              // max bytes per Read (nil: unlimited)
 	Pause   func()                  // called before every Read (nil: none)
 	OnStart func(idx int, eof bool) // a Read begins at the start offset of file block idx (or at end of data)
+	// StallAt >= 0: a live stream that stops delivering: the Read that would begin at this offset
+	// blocks until Release is closed and then fails with io.ErrClosedPipe.
+	StallAt int64
+	Release chan struct{}
+	Stalled int32 // set to 1 when a Read is blocked (atomic)
 	starts  map[int64]int
 }
 
 func NewReader(f *File) *Reader {
-	r := &Reader{f: f, starts: map[int64]int{}}
+	r := &Reader{f: f, starts: map[int64]int{}, StallAt: -1}
 	for i, s := range f.Starts {
 		if _, ok := r.starts[s]; !ok {
 			r.starts[s] = i
@@ -197,10 +231,18 @@ func (r *Reader) Read(p []byte) (int, error) {
 	if idx, ok := r.starts[r.pos]; ok && r.OnStart != nil {
 		r.OnStart(idx, r.pos >= int64(len(r.f.Bytes)))
 	}
+	if r.StallAt >= 0 && r.pos >= r.StallAt {
+		atomic.StoreInt32(&r.Stalled, 1)
+		<-r.Release
+		return 0, io.ErrClosedPipe
+	}
 	if r.pos >= int64(len(r.f.Bytes)) {
 		return 0, io.EOF
 	}
 	n := len(p)
+	if r.StallAt >= 0 && int64(n) > r.StallAt-r.pos {
+		n = int(r.StallAt - r.pos)
+	}
 	if r.Chunk != nil {
 		if c := r.Chunk(); c < n {
 			n = c
